@@ -14,6 +14,12 @@ def run(ctx):
 
     _K.accumulator_reset(ctx, rule="R17.6")  # mode-summation kernels: phase reset per mode, every point and mode visited (shared with C15)
     _K.full_extent(ctx, rule="R17.6")
+    _K.zero_init(ctx, rule="R17.6")
+    from . import C15_bounds
+
+    C15_bounds.run(ctx, rule="R17.6", files=("field/summator.pyx",), floor=20)
+    _K.mode_terms(ctx, rule="R17.6")  # the weight multiplies the cosine AND the sine part of every mode
+    _K.double_precision(ctx, rule="R17.6")  # single-precision accumulators / phases lose the exactness the property states
     from .C12 import inverse_pairs
 
     inverse_pairs(ctx, rule="R17.5")  # periodicity holds along the model's main axes only if positions are derotated exactly as isometrize documents (shared with C12)
@@ -49,7 +55,11 @@ def run(ctx):
         if guard:
             e, pol = guard[0]
             t = ast.unparse(e)
-            ok = (not pol) and "!= 0" in t and ".any()" in t and ("for m in %s" % a0) in t
+            # some element of the very sequence handed to _set_modes is odd: a comprehension over it whose element is `<var> % 2`
+            comp = [g for g in ast.walk(e) if isinstance(g, (ast.ListComp, ast.GeneratorExp)) and len(g.generators) == 1 and not g.generators[0].ifs
+                    and ast.unparse(g.generators[0].iter) == a0 and isinstance(g.generators[0].target, ast.Name)
+                    and ast.unparse(g.elt) == "%s %% 2" % g.generators[0].target.id]
+            ok = (not pol) and "!= 0" in t and ".any()" in t and len(comp) == 1
         ctx.check(ok, "R17.2", GEN + "::Fourier.update", "user-supplied mode numbers reach _set_modes only after `any(m %% 2 != 0)` raised for odd values: %s" % [ast.unparse(e) for e, _ in guard], "parity:" + a0)
     ctx.check(n_user >= 1, "R17.2", GEN + "::Fourier.update", "a user-value _set_modes site exists (%d)" % n_user, "user-site")
     other = []
